@@ -1199,8 +1199,9 @@ impl TieredEngine {
 
         // Step 1: Search Layer 2 (Hot Tier) - recent writes
         // Over-fetch by 2× to ensure good candidates after merging
-        let hot_results =
-            self.filter_hot_knn_results_to_canonical(self.hot_tier.knn_search(query, k * 2));
+        let hot_results = self.filter_hot_knn_results_to_canonical(
+            self.hot_tier.knn_search_with_coherence(query, k * 2, None),
+        );
 
         debug!(
             "Hot tier search returned {} results (requested {})",
@@ -1414,12 +1415,15 @@ impl TieredEngine {
             .map(|&i| normalized_queries[i].as_ref().to_vec())
             .collect();
 
-        let hot_results: Vec<Vec<(u64, f32)>> = miss_queries
-            .iter()
-            .map(|query| {
-                self.filter_hot_knn_results_to_canonical(self.hot_tier.knn_search(query, k * 2))
-            })
-            .collect();
+        let hot_results: Vec<Vec<(u64, f32)>> =
+            miss_queries
+                .iter()
+                .map(|query| {
+                    self.filter_hot_knn_results_to_canonical(
+                        self.hot_tier.knn_search_with_coherence(query, k * 2, None),
+                    )
+                })
+                .collect();
 
         {
             let mut stats = self.stats.write();
@@ -1550,10 +1554,13 @@ impl TieredEngine {
         final_results
     }
 
-    fn filter_hot_knn_results_to_canonical(&self, hot_results: Vec<(u64, f32)>) -> Vec<(u64, f32)> {
+    fn filter_hot_knn_results_to_canonical(
+        &self,
+        hot_results: Vec<(u64, f32, VectorCoherenceToken)>,
+    ) -> Vec<(u64, f32)> {
         hot_results
             .into_iter()
-            .filter_map(|(doc_id, distance)| {
+            .filter_map(|(doc_id, distance, searched_coherence)| {
                 let Some((hot_embedding, hot_coherence)) =
                     self.hot_tier.peek_with_coherence(doc_id)
                 else {
@@ -1563,6 +1570,15 @@ impl TieredEngine {
                     );
                     return None;
                 };
+                if hot_coherence != searched_coherence {
+                    // The mirror entry was replaced between the distance computation and this
+                    // check: the distance belongs to a superseded version of the document, so
+                    // validating the NEW entry would vouch for the OLD distance (and the merged
+                    // result could then be stored in the query cache after the write's
+                    // invalidation). Drop the candidate; the cold tier, searched afterwards,
+                    // supplies the document's current version.
+                    return None;
+                }
                 match self.canonical_vector_state(
                     doc_id,
                     &hot_embedding,
@@ -1875,7 +1891,7 @@ impl TieredEngine {
                             let hot_cancel_worker = Arc::clone(&hot_cancel);
                             move || {
                                 let _worker_permit = worker_permit;
-                                hot_tier.knn_search_with_cancel(
+                                hot_tier.knn_search_with_coherence(
                                     &query_vec,
                                     k_candidates,
                                     Some(hot_cancel_worker.as_ref()),
